@@ -14,6 +14,8 @@ import (
 type lruCase struct {
 	Cap int             `json:"cap"`
 	Ops [][]interface{} `json:"ops"`
+	// Sparse: report the resident list after the last operation only (long runs at large capacities)
+	Sparse bool `json:"sparse"`
 }
 
 type lruStep struct {
@@ -44,7 +46,7 @@ func init() {
 			cache := NewLRU(c.Cap)
 			steps := []lruStep{}
 			num := func(x interface{}) uint64 { return uint64(x.(float64)) }
-			for _, op := range c.Ops {
+			for i, op := range c.Ops {
 				st := lruStep{R: []int64{}}
 				switch op[0].(string) {
 				case "S":
@@ -106,7 +108,9 @@ func init() {
 				if len(cache.cache) != cache.list.Len() {
 					return fmt.Errorf("map and list sizes differ")
 				}
-				st.Res = lruResident(cache)
+				if !c.Sparse || i == len(c.Ops)-1 {
+					st.Res = lruResident(cache)
+				}
 				steps = append(steps, st)
 			}
 			if err := out.Encode(map[string]interface{}{"steps": steps}); err != nil {
